@@ -810,7 +810,7 @@ func init() {
 			"state = one program, transition = one execution on the real interpreter with real files; every execution is compared with the reference evaluator (stdout, exit status, error/no error) and its trace is checked against invariants derived from the statement; distinct = distinct observations",
 		Assumptions: []string{
 			"FILENAME before any named file was opened and while standard input is read is not prescribed: \"\" and \"-\" are treated as equal",
-			"a plain getline that reaches a missing operand file is outside the model (counted as ref_unsupported); a missing operand file reached by the main loop must end the run with an error in model and implementation, with equal output before it",
+			"a plain getline that reaches a missing operand file returns -1, uses the operand up and leaves FILENAME, FNR and NR unchanged (no file was entered); a missing operand file reached by the main loop must end the run with an error in model and implementation, with equal output before it",
 			"reading \"-\" a second time yields no records (standard input already consumed)",
 			"a record is split with the FS in effect when it was read (POSIX); the direct FS invariant is only applied to records read while later operands cannot have been reached",
 			"reference evaluator refawk shares only lexer+parser with the implementation",
